@@ -329,18 +329,11 @@ def r4(ctx, F):
     rfl = flow_of(rep)
     oks = ok_assign_blocks(rep, 'Ok')
     errs_b = ok_assign_blocks(rep, 'Err')
-    gt = None
-    for bi in rfl.cfg.reachable():
-        for st in rep.blocks[bi]['stmts']:
-            rv = st['rv']
-            if rv['k'] == 'bin' and rv['op'] in ('Gt', 'Ne') and any(o.kind == 'call' and o.key == 'dir_sync::TransferProgress::failed' for o in rfl.origins(rv['ops'][0])) \
-               and any(o.kind == 'const' and o.key == 0 for o in rfl.origins(rv['ops'][1])):
-                gt = rfl.outcomes(None, st['dst']['l'])
-    good = gt is not None and bool(oks) and bool(errs_b) and all(rfl.cfg.edges_guard(gt.get('false', set()), ob) for ob in oks) and \
-        all(rfl.cfg.edges_guard(gt.get('true', set()), eb) or True for eb in errs_b)
-    # the Err edge must not reach an Ok return
+    z_e, nz_e = zero_test_edges(rfl, lambda os_: any(o.kind == 'call' and o.key == 'dir_sync::TransferProgress::failed' for o in os_))
+    good = bool(z_e) and bool(nz_e) and bool(oks) and bool(errs_b) and all(rfl.cfg.edges_guard(z_e, ob) for ob in oks)
+    # the failed() != 0 edge must not reach an Ok return
     if good:
-        for (s, t, lab) in gt.get('true', ()):
+        for (s, t, lab) in nz_e:
             if set(oks) & rfl.cfg.reach(t):
                 good = False
     ctx.check(good, 'C04.R4', 'report:Err-iff-failed', 'Ok only if failed() == 0', 'report() can return Ok although transfers failed', loc(rep, rep.lo))
